@@ -307,3 +307,44 @@ theorem primitiveLayout_eq (h : HostLayouts) (p : Primitive) : primitiveLayout h
   | _ => rfl
 
 end RotoV.Boundary
+
+namespace RotoV.Boundary
+open RotoV RotoV.Gen.BoundaryTables
+
+theorem le_maxSize_of_mem {l : Layout} {ls : List Layout} (h : l ∈ ls) : l.size ≤ maxSize ls := by
+  induction ls with
+  | nil => cases h
+  | cons x xs ih =>
+    rw [maxSize_cons]
+    rcases List.mem_cons.mp h with rfl | h
+    · exact Nat.le_max_left _ _
+    · exact Nat.le_trans (ih h) (Nat.le_max_right _ _)
+
+/-- The single payload of a variant lies behind the tag and inside the enum: bytes
+    `[payloadOffset l, payloadOffset l + l.size)` are within `[1, size)`. -/
+theorem payload_in_bounds' (vs : List (List Layout)) (l : Layout) (hmem : [l] ∈ vs)
+    (hwf : ∀ fs ∈ vs, ∀ x ∈ fs, x.WF) :
+    1 ≤ payloadOffset l ∧ payloadOffset l + l.size ≤ (reprU8 vs).size := by
+  have hl := hwf [l] hmem l (List.mem_singleton.mpr rfl)
+  have hpos := hl.align_pos
+  refine ⟨le_roundUp 1 l.align hpos, ?_⟩
+  -- the struct of this variant
+  have hs : (reprC [⟨1, 1⟩, l]).size ≤ maxSize (vs.map fun fs => reprC (⟨1, 1⟩ :: fs)) :=
+    le_maxSize_of_mem (List.mem_map.mpr ⟨[l], hmem, rfl⟩)
+  have hA : isPow2 (maxAlign (vs.map fun fs => reprC (⟨1, 1⟩ :: fs))) := by
+    apply maxAlign_pow2
+    intro s hs'
+    obtain ⟨gs, hgs, rfl⟩ := List.mem_map.mp hs'
+    apply maxAlign_pow2
+    intro x hx
+    rcases List.mem_cons.mp hx with rfl | hx
+    · exact isPow2_one
+    · exact (hwf gs hgs x hx).pow2
+  have h0 : roundUp 0 1 = 0 := by decide
+  have hApos : 0 < maxAlign [⟨1, 1⟩, l] := Nat.lt_of_lt_of_le Nat.one_pos (one_le_maxAlign _)
+  have hstruct : payloadOffset l + l.size ≤ (reprC [⟨1, 1⟩, l]).size := by
+    simp only [reprC, structEnd, h0, payloadOffset]
+    exact le_roundUp _ _ hApos
+  exact Nat.le_trans hstruct (Nat.le_trans hs (le_roundUp _ _ hA.pos))
+
+end RotoV.Boundary
